@@ -49,6 +49,21 @@ Theorem C06_roundtrip_any_options_partial :
 Proof. exact roundtrip_auto. Qed.
 Print Assumptions C06_roundtrip_any_options_partial.
 
+(* the file is fed back and written again under any other option set (urls / hashes / annotate / format
+   on or off independently of the first run): what was read is written and read back again.  In particular a
+   pin whose location the first file did not record simply has no URL in the second one. *)
+Theorem C06_second_run_roundtrip :
+  forall o1 o2 v, wf_auto o1 v = true -> wf_auto o2 (erase o1 v) = true ->
+  exists v1, load (write o1 v) = Ok v1 /\ v1 = erase o1 v /\ load (write o2 v1) = Ok (erase o2 v1).
+Proof. exact roundtrip_twice. Qed.
+Print Assumptions C06_second_run_roundtrip.
+
+(* its hypotheses hold of the rich example view for all 24 x 24 pairs of option sets *)
+Theorem C06_second_run_satisfiable :
+  forallb (fun o1 => forallb (fun o2 => wf_auto o1 ex_view && wf_auto o2 (erase o1 ex_view)) all_opts) all_opts = true.
+Proof. exact wf_second_run_example. Qed.
+Print Assumptions C06_second_run_satisfiable.
+
 (* the view may be given in any order (pins, requirers, extras): the writer sorts, the loader
    returns the canonical form *)
 Theorem C06_roundtrip_multi_any_order :
